@@ -399,6 +399,11 @@ func (s *sharedEntryAttributes) getAggregatedDeletes(deletes []DeleteEntry, aggr
 			// by adding the key path to the deletes
 			deletes = append(deletes, s)
 		} else {
+			// the list entry stays: delete the elements of a choice case that lost
+			deletes, err = s.getChoiceCaseDeletes(deletes)
+			if err != nil {
+				return nil, err
+			}
 			// otherwise continue with deletion on the childs.
 			for _, c := range s.childs.GetAll() {
 				deletes, err = c.GetDeletes(deletes, aggregatePaths)
@@ -529,39 +534,10 @@ func (s *sharedEntryAttributes) getRegularDeletes(deletes []DeleteEntry, aggrega
 	var err error
 	// if entry is a container type, check the keys, to be able to
 	// issue a delte for the whole branch at once via keys
-	switch s.schema.GetSchema().(type) {
-	case *sdcpb.SchemaElem_Container:
-
-		// deletes for child elements (choice cases) that newly became inactive.
-		for _, v := range s.choicesResolvers {
-			oldBestCaseName := v.getOldBestCaseName()
-			newBestCaseName := v.getBestCaseName()
-			// so if we have an old and a new best cases (not "") and the names are different,
-			// all the old to the deletion list
-			if oldBestCaseName != "" && newBestCaseName != "" && oldBestCaseName != newBestCaseName {
-				// the case name is not necessarily the name of an element, and a case might consist of several
-				// elements. All the elements of the old best case need to be deleted.
-				for elemName := range v.cases[oldBestCaseName].elements {
-					// try fetching the element from the childs
-					oldBestCaseEntry, exists := s.childs.GetEntry(elemName)
-					if exists {
-						deletes = append(deletes, oldBestCaseEntry)
-						continue
-					}
-					// it might be that the child is not loaded into the tree, but just considered from the treecontext cache for the choice/case resolution
-					// if so, and the element carries a value, we create and return the DeleteEntryImpl struct for the path of the element
-					if v.cases[oldBestCaseName].elements[elemName].value == math.MaxInt32 {
-						continue
-					}
-					path, err := s.SdcpbPath()
-					if err != nil {
-						return nil, err
-					}
-					path.Elem = append(path.Elem, &sdcpb.PathElem{Name: elemName})
-					deletes = append(deletes, NewDeleteEntryImpl(path, append(s.Path(), elemName)))
-				}
-			}
-		}
+	// deletes for child elements (choice cases) that newly became inactive.
+	deletes, err = s.getChoiceCaseDeletes(deletes)
+	if err != nil {
+		return nil, err
 	}
 
 	if s.shouldDelete() && !s.IsRoot() && len(s.GetSchemaKeys()) == 0 {
@@ -572,6 +548,40 @@ func (s *sharedEntryAttributes) getRegularDeletes(deletes []DeleteEntry, aggrega
 		deletes, err = e.GetDeletes(deletes, aggregate)
 		if err != nil {
 			return nil, err
+		}
+	}
+	return deletes, nil
+}
+
+// getChoiceCaseDeletes adds the elements of the choice cases that were active before and lost against another case.
+func (s *sharedEntryAttributes) getChoiceCaseDeletes(deletes []DeleteEntry) ([]DeleteEntry, error) {
+	for _, v := range s.choicesResolvers {
+		oldBestCaseName := v.getOldBestCaseName()
+		newBestCaseName := v.getBestCaseName()
+		// so if we have an old and a new best cases (not "") and the names are different,
+		// all the old to the deletion list
+		if oldBestCaseName != "" && newBestCaseName != "" && oldBestCaseName != newBestCaseName {
+			// the case name is not necessarily the name of an element, and a case might consist of several
+			// elements. All the elements of the old best case need to be deleted.
+			for elemName := range v.cases[oldBestCaseName].elements {
+				// try fetching the element from the childs
+				oldBestCaseEntry, exists := s.childs.GetEntry(elemName)
+				if exists {
+					deletes = append(deletes, oldBestCaseEntry)
+					continue
+				}
+				// it might be that the child is not loaded into the tree, but just considered from the treecontext cache for the choice/case resolution
+				// if so, and the element carries a value, we create and return the DeleteEntryImpl struct for the path of the element
+				if v.cases[oldBestCaseName].elements[elemName].value == math.MaxInt32 {
+					continue
+				}
+				path, err := s.SdcpbPath()
+				if err != nil {
+					return nil, err
+				}
+				path.Elem = append(path.Elem, &sdcpb.PathElem{Name: elemName})
+				deletes = append(deletes, NewDeleteEntryImpl(path, append(s.Path(), elemName)))
+			}
 		}
 	}
 	return deletes, nil
@@ -1289,15 +1299,24 @@ func (s *sharedEntryAttributes) validateMandatoryWithKeys(ctx context.Context, l
 // the choiceCasesResolvers will get the priority values per branch and use these to
 // calculate the active case.
 func (s *sharedEntryAttributes) initChoiceCasesResolvers() {
-	if s.schema == nil {
-		return
-	}
-
-	// extract container schema
+	// the choices of a list are resolved per list entry: the childs of the Entry that carries the schema of a
+	// list are key values, the case members are childs of the Entry of the last key level, which has no schema
 	var ci *sdcpb.ChoiceInfo
-	switch s.schema.GetSchema().(type) {
-	case *sdcpb.SchemaElem_Container:
-		ci = s.schema.GetContainer().GetChoiceInfo()
+	switch {
+	case s.schema != nil:
+		if c := s.schema.GetContainer(); c != nil && len(c.GetKeys()) == 0 {
+			ci = c.GetChoiceInfo()
+		}
+	case s.parent != nil:
+		ancestor, levelsUp := s.GetFirstAncestorWithSchema()
+		if ancestor != nil {
+			if c := ancestor.GetSchema().GetContainer(); c != nil && len(c.GetKeys()) > 0 && len(c.GetKeys()) == levelsUp {
+				ci = c.GetChoiceInfo()
+			}
+		}
+	}
+	if ci == nil {
+		return
 	}
 
 	// create a new choiceCasesResolvers struct
@@ -1346,7 +1365,7 @@ func (s *sharedEntryAttributes) FinishInsertionPhase(ctx context.Context) {
 // the choiceResolver is fed with the resulting values and thereby ready to be queried
 // in a later stage (filterActiveChoiceCaseChilds()).
 func (s *sharedEntryAttributes) populateChoiceCaseResolvers(ctx context.Context) {
-	if s.schema == nil {
+	if len(s.choicesResolvers) == 0 {
 		return
 	}
 	// if choice/cases exist, process it
@@ -1386,7 +1405,7 @@ func (s *sharedEntryAttributes) populateChoiceCaseResolvers(ctx context.Context)
 // a container with a / multiple choices, the list of childs is filtered to only return the
 // cases that have the highest precedence.
 func (s *sharedEntryAttributes) filterActiveChoiceCaseChilds() map[string]Entry {
-	if s.schema == nil {
+	if len(s.choicesResolvers) == 0 {
 		return s.childs.GetAll()
 	}
 
